@@ -34,7 +34,9 @@ SMH == <<0 - 1, 1>>                   \* latest height of the solo machine clien
 VS == [V |-> {"a", "b", "c", "d"},
        W |-> {"a", "b", "e", "f"},
        X |-> {"e", "f", "g", "h"},
-       U |-> {"a", "b", "c", "d", "e", "f", "g"}]
+       U |-> {"a", "b", "c", "d", "e", "f", "g"},
+       Y |-> {"c", "d", "g", "h"},
+       Z |-> {"h"}]
 Members(id) == IF id \in DOMAIN VS THEN VS[id] ELSE {}
 
 HLT(x, y) == x[1] < y[1] \/ (x[1] = y[1] /\ x[2] < y[2])
